@@ -1604,3 +1604,94 @@ func factStrsDeepAll(fn *ssa.Function, site ssa.Instruction) map[string]bool {
 	}
 	return out
 }
+
+// globalStringTable returns the string constants a package-level array / slice variable is initialised
+// with (the element stores of the package initialiser); ok is false when some element is not a constant
+// or the variable is assigned anywhere else.
+func globalStringTable(g *ssa.Global) (out []string, ok bool) {
+	if g == nil || g.Pkg == nil {
+		return nil, false
+	}
+	initFn := g.Pkg.Func("init")
+	if initFn == nil {
+		return nil, false
+	}
+	ok = true
+	backing := map[ssa.Value]bool{ssa.Value(g): true}
+	// a slice variable: init allocates an array, fills it and stores the slice of it into the variable
+	eachInstr(initFn, func(in ssa.Instruction) {
+		if st, isSt := in.(*ssa.Store); isSt && st.Addr == ssa.Value(g) {
+			if sl, isSl := unconv(st.Val).(*ssa.Slice); isSl {
+				backing[sl.X] = true
+			}
+			// an array variable: the literal is built in a temporary and copied over as a whole
+			if u, isU := unconv(st.Val).(*ssa.UnOp); isU && u.Op == token.MUL {
+				backing[u.X] = true
+			}
+		}
+	})
+	eachInstr(initFn, func(in ssa.Instruction) {
+		st, isSt := in.(*ssa.Store)
+		if !isSt {
+			return
+		}
+		ia, isIA := st.Addr.(*ssa.IndexAddr)
+		if !isIA || !backing[ia.X] {
+			return
+		}
+		if s, isC := constString(st.Val); isC {
+			out = append(out, s)
+		} else {
+			ok = false
+		}
+	})
+	// assigned outside init?
+	for _, m := range g.Pkg.Members {
+		fn, isFn := m.(*ssa.Function)
+		if !isFn || fn == initFn {
+			continue
+		}
+		var fns []*ssa.Function
+		fns = append(fns, fn)
+		fns = append(fns, fn.AnonFuncs...)
+		for _, f2 := range fns {
+			eachInstr(f2, func(in ssa.Instruction) {
+				if st, isSt := in.(*ssa.Store); isSt {
+					if st.Addr == ssa.Value(g) {
+						ok = false
+					}
+					if ia, isIA := st.Addr.(*ssa.IndexAddr); isIA && ia.X == ssa.Value(g) {
+						ok = false
+					}
+				}
+			})
+		}
+	}
+	return out, ok && len(out) > 0
+}
+
+// tableElementOf: v is an element read from a package-level array / slice variable (x[i], also through the
+// value copy a range loop makes); returns that variable.
+func tableElementOf(v ssa.Value) *ssa.Global {
+	var base ssa.Value
+	switch x := v.(type) {
+	case *ssa.Index:
+		base = x.X
+	case *ssa.UnOp:
+		if ia, ok := x.X.(*ssa.IndexAddr); ok && x.Op == token.MUL {
+			base = ia.X
+		}
+	}
+	if base == nil {
+		return nil
+	}
+	if g, ok := base.(*ssa.Global); ok {
+		return g
+	}
+	if u, ok := base.(*ssa.UnOp); ok && u.Op == token.MUL {
+		if g, ok := u.X.(*ssa.Global); ok {
+			return g
+		}
+	}
+	return nil
+}
